@@ -214,9 +214,9 @@ class AceGroup(AceBase, Group):
 
         for item in self._items:
             item.type = self._type
-            if self._platform == "nxos":
-                self.ungroup_ports()
             item.platform = self._platform
+        if self._platform == "nxos":
+            self.ungroup_ports()
 
         data = self.data(uuid=True)
         self.__init__(**data)  # type: ignore
